@@ -16,6 +16,14 @@ plus `cacheOp`: any method of the memory cache, which is one atomic step since t
 serialized by a lock (F9). An event is *enabled* only where the code can perform it; `step` returns
 `none` for an event that is not enabled (the trace acceptor of the correspondence check, and the
 transition relation of the theorems, are this one function). Any number of threads and keys.
+
+Nested invocations: a "thread" of this model is an *invocation* (a frame). A body that calls another memento
+function starts a new model thread which runs the same protocol between the caller's `exec` and `memoize` events
+(both are separate events, so anything may happen in between); the caller simply takes no step meanwhile, which is a
+restriction of the schedules and keeps every safety theorem. The per-call mutexes are re-entrant in the code, but keys
+within one call stack are distinct (a function calling itself with the same arguments never terminates), so
+re-entrancy is never used and a frame sees the mutex as a plain lock. `progress` (no deadlock) is stated for threads
+that take no nested steps.
 -/
 namespace Memento.Conc
 
